@@ -318,8 +318,14 @@ class Inventory:
         self.max_paths = max_paths
         self.trust_doc = trust_doc or (lambda body, base: False)
         self._always_some = {}
+        self._paths = {}
+        self._lemmas = {}
+        self._invs = {}
 
     def region_paths(self, body):
+        key = body.path
+        if key in self._paths:
+            return self._paths[key]
         ex = Explorer(body, max_paths=self.max_paths)
         loops = natural_loops(body)
         out = []
@@ -327,6 +333,147 @@ class Inventory:
             out.extend(ex.explore(start=s, stop=set(loops)))
         if ex.capped:
             self.capped.append(body.path)
+        self._paths[key] = out
+        return out
+
+    # ---- callee lemma: F(.., slice S, .., &mut usize I, ..) -> bool ; returns true  =>  *I' <= len(S)
+    def cursor_lemma(self, fn):
+        """(slice param idx, cursor param idx) if every return-true path of the local function leaves the `&mut usize`
+        cursor at most at the end of the slice parameter; None otherwise."""
+        if fn in self._lemmas:
+            return self._lemmas[fn]
+        self._lemmas[fn] = None
+        b = self.facts.bodies.get(fn)
+        if b is None:
+            return None
+        sl = [i for i in range(1, b.argc + 1) if b.local_ty(i).get('k') == 'ref' and b.local_ty(i)['inner'].get('s') == '[u8]']
+        cu = [i for i in range(1, b.argc + 1) if b.local_ty(i).get('k') == 'ref' and b.local_ty(i).get('mut') and b.local_ty(i)['inner'].get('s') == 'usize']
+        if len(sl) != 1 or len(cu) != 1 or b.local_ty(0).get('s') != 'bool':
+            return None
+        S, I = sl[0], cu[0]
+        if natural_loops(b):
+            return None
+        ok = True
+        any_true = False
+        for q in self.region_paths(b):
+            if q.end[0] != 'return':
+                continue
+            r = q.ret
+            if not (r[0] == 'const' and r[1] is True):
+                if r[0] == 'const' and r[1] is False:
+                    continue
+                ok = False
+                break
+            any_true = True
+            K = Knowledge(b, q.conds, None, q.events)
+            endv = None
+            for k, v in q.store.items():
+                if k[0] == 'M' and k[1] == ('deref', ('init', I, b.name_of(I))):
+                    endv = v
+            if endv is None:
+                endv = ('deref', ('init', I, b.name_of(I)))
+            if not K.le(endv, ('len', ('init', S, b.name_of(S)))) or not K.le(('deref', ('init', I, b.name_of(I))), endv):
+                ok = False
+                break
+        self._lemmas[fn] = (S, I) if ok and any_true else None
+        return self._lemmas[fn]
+
+    def lemma_facts(self, body):
+        """Lemma hook for Knowledge: facts from calls to local functions with a proven cursor lemma."""
+        inv = self
+
+        def hook(K, events):
+            for e in events:
+                if e[0] != 'call':
+                    continue
+                c = e[5]['callee']
+                tgt = c.get('resolved') if c.get('resolved_local') else None
+                if not tgt:
+                    continue
+                lm = inv.cursor_lemma(tgt)
+                if lm is None:
+                    continue
+                S, I = lm
+                if not any(cnd[0] == norm(e[4]) and cnd[2] is True for cnd in K.conds):
+                    continue
+                a = e[2][I - 1]
+                if a[0] == 'ref' and a[1][0] == 'loc':
+                    post = ('post', e[3], ('locval', a[1][1]))
+                    K.pf.add_cmp('Le', norm(post), ('len', norm(base_of(e[2][S - 1]))))
+                    # the cursor never moves backwards (checked with the lemma): post >= value before the call
+                    if len(a[1]) > 2:
+                        K.pf.add_cmp('Le', norm(a[1][2]), norm(post))
+        return hook
+
+    # ---- inductive loop invariants  cursor <= len(buffer)
+    def loop_invariants(self, body):
+        if body.path in self._invs:
+            return self._invs[body.path]
+        self._invs[body.path] = {}
+        loops = natural_loops(body)
+        paths = self.region_paths(body)
+        out = {}
+        for h in loops:
+            cands = set()
+            for q in paths:
+                if not q.blocks or q.blocks[0] != h:
+                    continue
+                for c in q.conds:
+                    t = norm(c[0])
+                    if t[0] == 'bin' and t[1] in ('Lt', 'Ge') and t[2][0] == 'hav' and t[3][0] == 'len':
+                        cands.add((t[2], t[3]))
+            good = []
+            for (cur, ln) in cands:
+                l = cur[1]
+                ok = True
+                # base: every path from the function entry that arrives at h
+                for q in paths:
+                    if q.end != ('stop', h) and q.end != ('backedge', h):
+                        continue
+                    K = Knowledge(body, q.conds, [self.lemma_facts(body)], q.events)
+                    if q.blocks and q.blocks[0] == h:
+                        K.pf.add_cmp('Le', cur, ln)     # induction hypothesis
+                    elif q.blocks and q.blocks[0] != 0:
+                        ok = False   # arrives from another loop: give up (no invariant there)
+                        break
+                    endv = q.store.get(('L', l), ('init', l, body.name_of(l)))
+                    # the bound must be about the same buffer value at the end of the path
+                    if not K.le(endv, ln):
+                        ok = False
+                        break
+                if ok:
+                    good.append((cur, ln))
+            # lower bounds: a cursor that starts at a constant k and never decreases satisfies k <= cursor
+            lows = {}
+            for q in paths:
+                if q.end in (('stop', h), ('backedge', h)) and q.blocks and q.blocks[0] == 0:
+                    for k, v in q.store.items():
+                        if k[0] == 'L' and v[0] == 'const' and isinstance(v[1], int) and not isinstance(v[1], bool) and body.local_ty(k[1]).get('s') == 'usize' and v[1] > 0:
+                            lows.setdefault(k[1], set()).add(v[1])
+            for l, ks in lows.items():
+                if len(ks) != 1:
+                    continue
+                kconst = ('const', next(iter(ks)), 'usize')
+                cur = ('hav', l, body.name_of(l), h)
+                ok = True
+                for q in paths:
+                    if q.end not in (('stop', h), ('backedge', h)):
+                        continue
+                    K = Knowledge(body, q.conds, [self.lemma_facts(body)], q.events)
+                    if q.blocks and q.blocks[0] == h:
+                        K.pf.add_cmp('Le', kconst, cur)
+                    elif q.blocks and q.blocks[0] != 0:
+                        ok = False
+                        break
+                    endv = q.store.get(('L', l), ('init', l, body.name_of(l)))
+                    if not K.le(kconst, endv):
+                        ok = False
+                        break
+                if ok:
+                    good.append((kconst, cur))
+            if good:
+                out[h] = good
+        self._invs[body.path] = out
         return out
 
     def site(self, body, desc, t, kind):
@@ -371,11 +518,18 @@ class Inventory:
                 elif e[0] == 'call':
                     self.on_call(body, p, e)
 
+    def knowledge(self, body, p, e):
+        K = Knowledge(body, p.conds[:e[6]], list(self.lemmas) + [self.lemma_facts(body)], [x for x in p.events if x[0] == 'call' and x[6] <= e[6]])
+        if p.blocks and p.blocks[0] != 0:
+            for (cur, ln) in self.loop_invariants(body).get(p.blocks[0], []):
+                K.pf.add_cmp('Le', cur, ln)
+        return K
+
     # ---- asserts
     def on_assert(self, body, p, e):
         kind = e[1]
         t = body.blocks[e[3]]['term']
-        K = Knowledge(body, p.conds[:e[6]], self.lemmas, p.events)
+        K = self.knowledge(body, p, e)
         if K.pf.infeasible():
             return
         if kind == 'BoundsCheck':
@@ -408,7 +562,7 @@ class Inventory:
         args = e[2]
         pk = panic_kind(t)
         if pk is not None:
-            K = Knowledge(body, p.conds[:e[6]], self.lemmas, p.events)
+            K = self.knowledge(body, p, e)
             if K.pf.infeasible():
                 return
             msgs = [a.get('str') for a in t['args'] if a['k'] == 'const' and a.get('str')]
@@ -416,7 +570,7 @@ class Inventory:
             self.record(s, False, '', f'explicit {pk}! is reachable on a feasible path')
             return
         if called(name, 'Option::unwrap', 'Option::expect', 'Result::unwrap', 'Result::expect'):
-            K = Knowledge(body, p.conds[:e[6]], self.lemmas, p.events)
+            K = self.knowledge(body, p, e)
             if K.pf.infeasible():
                 return
             x = args[0]
@@ -425,7 +579,7 @@ class Inventory:
             self.record(s, ok, how, why)
             return
         if called(name, 'Index::index', 'IndexMut::index_mut') and len(args) == 2:
-            K = Knowledge(body, p.conds[:e[6]], self.lemmas, p.events)
+            K = self.knowledge(body, p, e)
             if K.pf.infeasible():
                 return
             base = base_of(args[0])
@@ -436,7 +590,7 @@ class Inventory:
             return
         if called(name, 'slice::copy_from_slice', 'slice::split_at', 'slice::split_at_mut', 'Vec::remove', 'Vec::insert', 'Vec::swap_remove',
                   'Vec::drain', 'VecDeque::remove', 'slice::swap', 'Vec::split_off', 'String::insert', 'String::remove', 'str::split_at'):
-            K = Knowledge(body, p.conds[:e[6]], self.lemmas, p.events)
+            K = self.knowledge(body, p, e)
             if K.pf.infeasible():
                 return
             s = self.site(body, f'{canon(name).split("::")[-1]}({", ".join(show(norm(a)) for a in args)})', t, 'call')
